@@ -29,7 +29,7 @@ from .c07 import FULL, SMALL, TINY
 TYPES = {'Foo': A.Foo, 'FooBar': A.FooBar, 'Foo_': A.Foo_, 'BFoo': B.Foo, 'JFoo': A.JFoo, 'P2': A.P2,
          'Leaf': A.Leaf, 'BLeaf': B.Leaf, 'NoCacheT': A.NoCacheT, 'PFoo': A.PFoo, 'SFoo': A.SFoo}
 OUTER = ('Foo', 'FooBar', 'Foo_', 'BFoo', 'JFoo', 'P2', 'PFoo', 'NoCacheT', 'SFoo')
-QUERY_TYPES = (A.Foo, A.FooBar, A.Foo_, B.Foo, A.JFoo, A.P2, A.PFoo, A.Leaf, B.Leaf, A.NoCacheT, A.SFoo, A.DFoo, A.SubFoo, A.ShFit, A.ShFitAll)
+QUERY_TYPES = (A.Foo, A.FooBar, A.Foo_, B.Foo, A.JFoo, A.P2, A.PFoo, A.Leaf, B.Leaf, A.NoCacheT, A.SFoo, A.DFoo, A.SubFoo, A.ShFit, A.ShFitAll, A.Fit__v2, A.Fit_, A.EFoo, A.ABFoo)
 
 
 class AltPickle(PickleCache):
@@ -73,6 +73,8 @@ def run_group(args):
         # a derived task type adding a parameter (entries differing in the added parameter only), and
         # prefix-named types configured with one shared cache object
         tasks += [A.SubFoo(p=1, r=0), A.SubFoo(p=1, r=1), A.SubFoo(p=1, q=A.Leaf('sub'), r=[A.Leaf('sub')]), A.ShFit(p=1), A.ShFitAll(p=1), A.ShFitAll(p=A.ShFit(p=2))]
+        # type names with the key separator in them, cache formats with an empty / odd key prefix
+        tasks += [A.Fit__v2(p=1), A.Fit__v2(p=[A.Leaf('f')], q=2), A.Fit_(p=1), A.EFoo(p=1), A.EFoo(p={'k': A.Leaf('e')}), A.ABFoo(p=1), A.ABFoo(p=[A.EFoo(p=2)])]
         WORLD.reset(epoch=1)
         lab = labtech.Lab(storage=storage, runner_backend='serial', notebook=False)
         # every other group runs under a frozen clock: start at the epoch boundary, duration exactly zero
